@@ -763,11 +763,39 @@ def _is_identity_relist(prog, fi, target, value):
     return False
 
 
+def _fresh_value(prog, v, depth=0):
+    """is the expression a freshly built / copied node?  deepcopy(...), ast.<Node>(...), or a call of a repository
+    function all of whose returns are fresh"""
+    if not isinstance(v, ast.Call):
+        return False
+    nm = v.func.id if isinstance(v.func, ast.Name) else getattr(v.func, "attr", "")
+    if nm == "deepcopy":
+        return True
+    if isinstance(v.func, (ast.Name, ast.Attribute)) and (prog.ext_name(v.func, v) or "").startswith("ast."):
+        return True
+    if depth < 3:
+        for t in prog.resolve_expr_fn(v.func, v):
+            if isinstance(t, FunctionInfo):
+                rets = [r.value for r in ast.walk(t.node) if isinstance(r, ast.Return) and enclosing_fn(r) is t]
+                if not rets:
+                    return False
+                ok = True
+                for r in rets:
+                    if isinstance(r, ast.Name):
+                        defs = [st.value for st in ast.walk(t.node) if isinstance(st, ast.Assign) and any(isinstance(x, ast.Name) and x.id == r.id for x in st.targets)]
+                        ok = ok and bool(defs) and all(_fresh_value(prog, d, depth + 1) for d in defs)
+                    else:
+                        ok = ok and _fresh_value(prog, r, depth + 1)
+                return ok
+    return False
+
+
 def rule_modf2(prog, rep, tier, anchor="sync_properties.sync_property"):
     """MOD-F2: the node that is field-mutated and grafted into the output tree is owned: every definition of it is a fresh
-    construction or a deepcopy - never a bare alias of a node found in the input tree."""
+    construction or a deepcopy (directly or through a helper) - never a bare alias of a node found in the input tree."""
     fi = prog.fn(anchor)
-    if not any(isinstance(c, ast.Call) and prog.is_fn(c.func, "ast_utils.find_in_ast", c) for c in ast.walk(fi.node)):
+    region = prog.region(fi)
+    if not any(isinstance(c, ast.Call) and prog.is_fn(c.func, "ast_utils.find_in_ast", c) for f in region for c in ast.walk(f.node)):
         raise AnalysisError("MOD-F2: %s no longer looks the input node up with find_in_ast" % anchor)
     grafts = [(x, k.value.id) for x in ast.walk(fi.node) if isinstance(x, ast.Call) for k in x.keywords if k.arg == "replacement_node" and isinstance(k.value, ast.Name)]
     if not grafts:
@@ -775,13 +803,7 @@ def rule_modf2(prog, rep, tier, anchor="sync_properties.sync_property"):
     for g, name in grafts:
         defs = [st for st in ast.walk(fi.node) if isinstance(st, ast.Assign) and any(isinstance(t, ast.Name) and t.id == name for t in st.targets)]
         mutated = [w for w, b in _field_writes_on(fi, {name})]
-        bad = []
-        for d in defs:
-            v = d.value
-            fresh = isinstance(v, ast.Call) and ((v.func.id if isinstance(v.func, ast.Name) else getattr(v.func, "attr", "")) in ("deepcopy",)
-                                                 or (isinstance(v.func, (ast.Name, ast.Attribute)) and (prog.ext_name(v.func, v) or "").startswith("ast.")))
-            if not fresh:
-                bad.append(d)
+        bad = [d for d in defs if not _fresh_value(prog, d.value)]
         if not defs:
             rep.ob("MOD-F2", "%s: %s" % (anchor, name), "unresolved", loc(prog, g), "no local definition of the grafted node")
         elif bad:
